@@ -658,6 +658,17 @@ class SerWalk:
             if f.endswith(suf):
                 args = n.get("args") or []
                 p = self.resolve(args[1], env) if len(args) > 1 else None
+                if kind == "mandatory" and p:
+                    # append_field on the element of a loop over a vector / on the payload of an if-let:
+                    # the component is written once per element / when present
+                    if p[-1] == "[]":
+                        kind = "repeated"
+                        p = p[:-1]
+                        if p and p[-1] == "?":
+                            p = p[:-1]
+                    elif p[-1] == "?":
+                        kind = "optional"
+                        p = p[:-1]
                 self.appends.append(Append(kind, p, n.get("ln"), tuple(self.loops), tuple(self.conds),
                                            ty=(n.get("ga") or [None])[0]))
                 if p is None:
